@@ -70,6 +70,9 @@ class ReorderCoverage(ReorderRule):
 
     def apply(self, font: ttLib.TTFont, value: otBase.BaseTable) -> None:
         coverage = _get_dotted_attr(value, self.coverage_attr)
+        if coverage is None:
+            # optional coverage (e.g. MathVariants with only vertical variants)
+            return
 
         if type(coverage) is not list:
             # Normal path, process one coverage that might have a parallel list
